@@ -48,6 +48,8 @@ def generate(seed, tier):
         k["arity"] = 12
     tb = model.gen_treebank(rng, k, nsent=rng.choice([1, 2, 3, 5]))
     model.add_twins(rng, tb, k, p=0.3)
+    if fmt != "lopar" and rng.random() < 0.05:
+        tb.append(model.comb_sentence(rng, rng.choice([9, 10, 12]), sid=801))   # fan-out >= 10
     for s in tb:
         for t in s["tokens"]:
             if t[0] and t[0][-1].isdigit():
@@ -71,7 +73,8 @@ def generate(seed, tier):
             s["root"][0] = rng.choice(["VROOT", "TOP", "FRAG", "ROOT"] + k["labels"][:2])
     opts = {}
     if fmt in ("pmcfg", "rcg") and rng.random() < 0.3:
-        opts["lex_in_grammar"] = True
+        # options are flags: what counts is that the key is given, whatever its value
+        opts["lex_in_grammar"] = rng.choice([True, True, 0, 1, "yes"])
     platform = "Linux"
     if fmt == "lopar" and rng.random() < 0.08:
         platform = rng.choice(["Darwin", "Windows"])
@@ -85,6 +88,8 @@ def generate(seed, tier):
                     if t[0] and t[0][-1].isdigit():
                         t[0] = t[0] + "a"
     return {"tb": tb, "fmt": fmt, "enc": enc, "mode": mode, "path": path, "opts": opts,
+            "extra": (model.gen_treebank(rng, k, nsent=rng.choice([1, 2]))
+                      if rng.random() < 0.3 else []),
             "prior": prior, "prefix": rng.choice(["g", "g", "g.bin", "negra.train", "gram.v2"]),
             "strip_newline": rng.random() < 0.3,
             "platform": platform, "reread": rng.random() < 0.6, "shuffle": rng.randrange(1 << 30),
@@ -144,7 +149,8 @@ def cli_argv(sc):
         argv += ["--markov", "v:%d" % m["v"], "h:%d" % m["h"]] + \
             (["nofanout"] if "nofanout" in m else [])
     if sc["opts"]:
-        argv += ["--dest-opts"] + sorted(sc["opts"])
+        argv += ["--dest-opts"] + ["%s:%s" % (k_, v_) if v_ is not True else k_
+                                   for k_, v_ in sorted(sc["opts"].items())]
     return argv
 
 
@@ -166,7 +172,7 @@ def execute(sc, sim):
     global OUT
     OUT = out_prefix(sc)          # one scenario at a time per worker
     st = cm.Stats()
-    st.declare("reread_without_final_newline", "earlier_grammars_written_in_same_process", "rule_count_above_1", "ambiguous_word", "non_ascii_word", "fanout_above_1",
+    st.declare("extract_into_reread_grammar", "reread_without_final_newline", "earlier_grammars_written_in_same_process", "rule_count_above_1", "ambiguous_word", "non_ascii_word", "fanout_above_1",
                "lex_in_grammar", "cli_path", "own_reader_reread", "grammar_cmd_from_rcg",
                "lopar_refuses_non_cf", "lopar_start_2plus_symbols", "second_hash_seed",
                "shared_linearization_sequence", "other_platform_refused")
@@ -292,6 +298,42 @@ def execute(sc, sim):
         if l3 != memlex:
             viols.append(cm.viol("C09/own-reader/lexicon-differs"))
             return done(sc, st, viols)
+        # incremental use: more trees are extracted into the grammar that was read back,
+        # then it is written again
+        if sc.get("extra"):
+            st.probe("extract_into_reread_grammar")
+            ops = [["gread", "rcg", "r", OUT, enc, {}]]
+            for j, x in enumerate(sc["extra"]):
+                ops += [["build", "t", x, 5 + j], ["extract", "t", "r"]]
+            fmt3 = random.Random(sc["io_seed"] + 1).choice(["pmcfg", "rcg"])
+            ops += [["gdump", "r"], ["gwrite", fmt3, "r", "/sim/w/out/inc", enc, {}]]
+            files_in = dict((p, d) for p, d in files.items() if p.startswith("/sim/w/out/"))
+            obs5 = sim.run(dict(base, files=files_in, sessions=[{"id": "i", "ops": ops}]))
+            st.add_obs(obs5)
+            r5 = obs5["sessions"]["i"]
+            if not any("exc" in r for r in r5):
+                xg, xl = refgram.extract(sc["extra"])
+                want = dict(memflat)
+                for k_, v_ in refgram.flat(xg).items():
+                    want[k_] = want.get(k_, 0) + v_
+                wantlex = dict((w, dict(t)) for w, t in memlex.items())
+                for w, tags in xl.items():
+                    for t, c in tags.items():
+                        wantlex.setdefault(w, {})
+                        wantlex[w][t] = wantlex[w].get(t, 0) + c
+                g5, l5 = refgram.from_dump([r for r in r5 if r["op"] == "gdump"][0]["ok"])
+                if refgram.flat(g5) != want or l5 != wantlex:
+                    viols.append(cm.viol("C09/incremental/grammar-in-memory-not-the-sum",
+                                         diff=refgram.diff_grammars(want, refgram.flat(g5))))
+                    return done(sc, st, viols)
+                files5 = dict((OUT + p[len("/sim/w/out/inc"):], d)
+                              for p, d in obs5["files"].items() if p.startswith("/sim/w/out/inc."))
+                v = judge_files(dict(sc, fmt=fmt3, opts={}),
+                                {"files": files5, "writelog": [], "unclosed_at_return": []},
+                                want, wantlex, st, tag="incremental", history=False)
+                if v:
+                    v["sig"] = v["sig"].replace("C09/", "C09/incremental/")
+                    return done(sc, st, [v])
         # the grammar command fed with the grammar files
         st.probe("grammar_cmd_from_rcg")
         fmt2 = random.Random(sc["io_seed"]).choice(["pmcfg", "rcg"])
@@ -415,6 +457,10 @@ def shrink_candidates(sc):
     if sc.get("prior"):
         c = model.clone(sc)
         c["prior"] = sc["prior"][:-1]
+        yield c
+    if sc.get("extra"):
+        c = model.clone(sc)
+        c["extra"] = []
         yield c
     if sc.get("prefix", "g") != "g":
         c = model.clone(sc)
